@@ -381,11 +381,37 @@ def prove_instance(c, inst, tier="quick", seed=0, lib_factory=Lib):
     return res
 
 
+class _Budget(Exception):
+    pass
+
+
 def _worker(args):
     idx, inst_idx, tier, seed = args
     c = REGISTRY[idx]
+    import resource, signal
+    try:
+        lim = int(os.environ.get("PYVC_MEM_GB", "6")) * 1024 ** 3
+        resource.setrlimit(resource.RLIMIT_AS, (lim, lim))
+    except (ValueError, OSError):
+        pass
+    budget = int(os.environ.get("PYVC_INSTANCE_BUDGET_S", 300 if tier == "quick" else 1800))
+
+    def on_alarm(signum, frame):
+        raise _Budget()
+    try:
+        signal.signal(signal.SIGALRM, on_alarm)
+        signal.alarm(budget)
+    except ValueError:
+        pass
     try:
         r = prove_instance(c, c.instances[inst_idx], tier, seed)
+        signal.alarm(0)
+    except (_Budget, MemoryError) as ex:
+        signal.alarm(0)
+        r = InstanceResult(c, c.instances[inst_idx])
+        r.status = "crash"
+        r.error = f"instance budget exceeded ({type(ex).__name__}: wall {budget}s / memory limit): engine limit, not a verdict"
+        return r.to_dict()
     except BaseException as ex:   # noqa
         r = InstanceResult(c, c.instances[inst_idx])
         r.status = "crash"
@@ -405,9 +431,78 @@ def run_property(prop, tier="quick", seed=0, jobs=None, only=None):
             c.instances = list(c.instances) + [t for t in c.thorough if t not in c.instances]
         for j in range(len(c.instances)):
             tasks.append((i, j, tier, seed))
+    # callee contracts behind the summaries are re-proved in every property that may use them
+    if not only:
+        needed = {sm.proved_by for sm in SUMMARIES.values()}
+        have = {REGISTRY[t[0]].name for t in tasks}
+        for i, c in enumerate(REGISTRY):
+            if c.name in needed and c.name not in have and not c.canary:
+                have.add(c.name)
+                for j in range(len(c.instances)):
+                    tasks.append((i, j, tier, seed))
     jobs = jobs or int(os.environ.get("PYVC_JOBS", min(16, os.cpu_count() or 4)))
-    if jobs <= 1 or len(tasks) <= 1:
+    if jobs <= 1:
         return [_worker(t) for t in tasks]
+    return _run_scheduled(tasks, jobs, tier)
+
+
+def _child(conn, task):
+    try:
+        conn.send(_worker(task))
+    except BaseException:      # noqa
+        try:
+            c = REGISTRY[task[0]]
+            r = InstanceResult(c, c.instances[task[1]])
+            r.status = "crash"
+            r.error = traceback.format_exc(limit=8)
+            conn.send(r.to_dict())
+        except BaseException:  # noqa
+            pass
+    finally:
+        conn.close()
+
+
+def _run_scheduled(tasks, jobs, tier):
+    """One process per contract instance, at most `jobs` at a time, each killed by the parent when it exceeds its
+    wall-clock budget (a solver call inside C code cannot be interrupted from within)."""
+    import multiprocessing as mp
     ctx = mp.get_context("fork")
-    with ctx.Pool(min(jobs, len(tasks)), maxtasksperchild=8) as pool:
-        return pool.map(_worker, tasks, chunksize=1)
+    budget = int(os.environ.get("PYVC_INSTANCE_BUDGET_S", 300 if tier == "quick" else 1800)) + 15
+    results = [None] * len(tasks)
+    pending = list(enumerate(tasks))
+    running = {}
+    while pending or running:
+        while pending and len(running) < jobs:
+            k, task = pending.pop(0)
+            parent, child = ctx.Pipe(duplex=False)
+            p = ctx.Process(target=_child, args=(child, task), daemon=True)
+            p.start()
+            child.close()
+            running[k] = (p, parent, time.time(), task)
+        done = []
+        for k, (p, conn, t0, task) in running.items():
+            if conn.poll(0):
+                try:
+                    results[k] = conn.recv()
+                except EOFError:
+                    pass
+                done.append(k)
+            elif not p.is_alive():
+                done.append(k)
+            elif time.time() - t0 > budget:
+                p.kill()
+                done.append(k)
+        for k in done:
+            p, conn, t0, task = running.pop(k)
+            p.join(timeout=5)
+            if results[k] is None:
+                c = REGISTRY[task[0]]
+                r = InstanceResult(c, c.instances[task[1]])
+                r.status = "crash"
+                r.error = (f"instance killed after {int(time.time() - t0)}s (wall/memory budget): engine limit, not a verdict"
+                           if time.time() - t0 > budget - 1 else "worker process died (memory limit or crash): engine limit, not a verdict")
+                results[k] = r.to_dict()
+            conn.close()
+        if not done:
+            time.sleep(0.02)
+    return results
